@@ -226,11 +226,27 @@ def run(ctx):
                 keep = ("unwrap_or", "unwrap_or_else", "unwrap_or_default", "or", "or_else") + (("map",) if isbool else ())
                 optc = [c for c in fl.calls_in(o) if c.startswith("core::option::Option::")]
                 bad = sorted(c for c in optc if c.rsplit("::", 1)[1] not in keep)
+                if not isbool:
+                    # a numeric value is not passed through any other function either (`.min(..)`, `clamp`, ..): only the read, the
+                    # default and value-preserving conversions
+                    bad += sorted(c for c in fl.calls_in(o) if not c.startswith("core::option::Option::") and c != FRM + "Settings::get"
+                                  and not c.endswith("::default") and not c.endswith("::from") and not c.endswith("::into"))
                 okv = not bad and (isbool or not fl.has_arith(o)) and optc.count("core::option::Option::map") <= (1 if isbool else 0)
                 ctx.check(okv, "C13-a", inv.key, "config.%s takes the received value unchanged (no filtering combinator)" % fld,
                           "received settings: the value of %s passes through %s%s before it is stored in config.%s - a value the peer advertised "
                           "(e.g. 0) is replaced by the default, so the peer's setting is not applied as received"
                           % (name, bad or optc, " and arithmetic" if (not isbool and fl.has_arith(o)) else "", fld), str(bad))
+        # .. and in the written-out form (`match get(ID) { Some(v) if .. => v, _ => default }`) no branch of this function may
+        # depend on the VALUE of a numeric setting: only the presence test (discriminant of `get(ID)`) decides between it and the default
+        numeric = {"const(%s%s)" % (SID, name) for name, (fld, isbool) in want_map.items() if not isbool}
+        for bi, blk in enumerate(inv.blocks):
+            if blk.term.t != "switch":
+                continue
+            o = f.origin(blk.term.op)
+            ids = {fl.fmt(n[2][1]) for n in fl.walk(o) if n[0] == "call" and n[1] == FRM + "Settings::get"} & numeric
+            ctx.check(not ids or fl.fmt(o).startswith("discr("), "C13-a", inv.key, "no branch on the value of a received numeric setting",
+                      "received settings: a branch of From<&frame::Settings> tests the value of %s (%s) - some advertised values are then "
+                      "not stored as received" % (sorted(ids), fl.fmt(o)[:120]), fl.fmt(o)[:80])
     # ------------------------------------------------------------------ C13-b capacity
     slen = consts.get(FRM + "SETTINGS_LEN")
     ctx.check(slen is not None and len(sent) <= slen and len(sup) <= slen, "C13-b", FRM + "SETTINGS_LEN", "table holds every sent and every supported setting",
